@@ -105,6 +105,13 @@ func TestDebugDialerForeignServer(t *testing.T) {
 		for i := rapid.IntRange(0, 3).Draw(t, "extra"); i > 0; i-- {
 			extra = append(extra, fmt.Sprintf("X-Extra-%d: %s", i, strings.Repeat("v", rapid.IntRange(0, 40).Draw(t, "xlen"))))
 		}
+		if odd := rapid.IntRange(0, 5).Draw(t, "oddline"); odd < 3 {
+			// a header line that net/http's response parser refuses on sight and ws.Dialer takes for a header it does not know
+			line := []string{": empty-name", "X\x01Ctl: v", "X Sp: v"}[odd]
+			at := rapid.IntRange(0, len(extra)).Draw(t, "oddat")
+			extra = append(extra[:at:at], append([]string{line}, extra[at:]...)...)
+			hx.Class("debug-dialer/foreign/line-net/http-refuses")
+		}
 		var nls []bool
 		switch rapid.IntRange(0, 3).Draw(t, "nlkind") {
 		case 0:
